@@ -103,7 +103,7 @@ def gen_plan(rng, index, tier):
         if fam == "swint":
             hmul, wmul = max(hmul, 2), max(wmul, 2)
         calls.append({"op": "forward", "B": rng.choice([1, 2, 3]), "H": hmul * m, "W": wmul * m, "data": rng.randrange(1 << 30),
-                      "perm": rng.random() < 0.3})
+                      "perm": rng.random() < 0.3, "range": rng.choice(["unit", "unit", "unit", "raw255", "dark_among_raw255"])})
         if hmul != wmul and rng.random() < 0.45:
             # the same area in the other orientation: equal element / window counts with a different layout is exactly
             # where a size-keyed cache or a reshaped buffer carried over from the previous call goes wrong
@@ -189,7 +189,7 @@ HEAD_NAMES = {
 def execute(plan, choices=None):
     violations = []
     trace = []
-    probes = {"forward_calls": 0, "frames_compared_with_pristine_copy": 0, "input_size_changed_between_calls": 0, "transposed_size_after_call": 0, "rng_jumps": 0,
+    probes = {"forward_calls": 0, "frames_compared_with_pristine_copy": 0, "input_size_changed_between_calls": 0, "transposed_size_after_call": 0, "rng_jumps": 0, "raw_intensity_inputs": 0, "dark_frame_among_bright": 0,
               "batch_permuted": 0, "head_stride_differs_from_backbone_min": 0, "bottomup_two_strides": 0, "stem_blocks_used": 0, "family_" + plan["family"]: 1}
     fam, head = plan["family"], plan["head"]
 
@@ -248,6 +248,14 @@ def execute(plan, choices=None):
             B, H, W = c["B"], c["H"], c["W"]
             g = torch.Generator().manual_seed(c["data"])
             x = torch.rand((B, bb["in_channels"], H, W), generator=g)
+            rng_kind = c.get("range", "unit")
+            if rng_kind != "unit":
+                # float frames holding raw 0..255 intensities are valid inputs too; one almost-black frame among normally exposed ones
+                x = x * 255.0
+                probes["raw_intensity_inputs"] += 1
+                if rng_kind == "dark_among_raw255" and B > 1:
+                    x[0] = (x[0] > 200.0).float()
+                    probes["dark_frame_among_bright"] += 1
             order = list(range(B))
             if c["perm"] and B > 1:
                 random.Random(c["data"]).shuffle(order)
